@@ -355,7 +355,14 @@ def fam_ramp_profiles(T=6, thorough=False):
         if not thorough and (minrun, mindown) == (2, 2) and len(sr) + len(dr) > 2:
             continue
         cid += 1
-        out.append(dict(id=cid, T=T, d=1, lo=3, hi=4, price=[-3, 1, -2, 2, -3, 1, -1, -2][:T], minrun=minrun, mindown=mindown, off0=off0, startcost=1,
+        out.append(dict(id=cid, T=T, d=1, lo=3, hi=4, price=[-3, 1, -2, 2, -3, 1, -1, -2][:T], minrun=minrun, mindown=mindown, off0=off0, run0=0, startcost=1,
+                        sr=[list(x) for x in sr], dr=[list(x) for x in dr], q=1))
+    # plants declared running: still inside the start profile, just behind it, long behind it
+    for sr, dr, minrun, run0 in itertools.product(srs[1:], drs[:3], (0, 2), (1, 2, 4)):
+        if not thorough and minrun == 2 and len(dr) == 2:
+            continue
+        cid += 1
+        out.append(dict(id=cid, T=T, d=1, lo=3, hi=4, price=[-3, 1, -2, 2, -3, 1, -1, -2][:T], minrun=minrun, mindown=0, off0=0, run0=run0, startcost=1,
                         sr=[list(x) for x in sr], dr=[list(x) for x in dr], q=1))
     return out
 
@@ -366,7 +373,8 @@ class RampReal:
         start = pd.Timestamp(CALENDARS['h'][0])
         self.tg = eao.assets.Timegrid(start, start + c['T'] * pd.Timedelta('1h'), freq='h')
         kw = dict(name='PL', nodes=[eao.assets.Node('power')], min_cap=float(c['lo']), max_cap=float(c['hi']), price='p', start_costs=float(c['startcost']),
-                  min_runtime=c['minrun'], min_downtime=c['mindown'], time_already_off=c['off0'], time_already_running=0, last_dispatch=0)
+                  min_runtime=c['minrun'], min_downtime=c['mindown'], time_already_off=c['off0'], time_already_running=c['run0'],
+                  last_dispatch=float((c['sr'][c['run0'] - 1][0] if 0 < c['run0'] <= len(c['sr']) else c['lo']) if c['run0'] > 0 else 0))
         if c['sr']:
             kw.update(start_ramp_lower_bounds=[float(x[0]) for x in c['sr']], start_ramp_upper_bounds=[float(x[1]) for x in c['sr']])
         if c['dr']:
@@ -420,7 +428,7 @@ def ramp_profiles(chk, tier, seed):
     negs, st2 = enumerate_ramp(cfgs if th else cfgs[seed % 2::2], relax=RAMP_RELAX, name='MCrampneg')
     chk.add_tlc(st2)
     for c in cfgs:
-        sel = dict(family='ramp_profiles', T=c['T'], start_profile=len(c['sr']), shutdown_profile=len(c['dr']), minrun=c['minrun'], mindown=c['mindown'], off0=c['off0'])
+        sel = dict(family='ramp_profiles', T=c['T'], start_profile=len(c['sr']), shutdown_profile=len(c['dr']), minrun=c['minrun'], mindown=c['mindown'], off0=c['off0'], run0=c['run0'])
         try:
             real = RampReal(c)
         except Exception as e:
